@@ -53,4 +53,31 @@ def Op.finalizing : Op P C → Bool
   | .lintFile _ => false
   | _ => true
 
+/-! ## Rules with an analyzer that lives as long as the rule -/
+
+/-- a rule whose analyzer object lives as long as the rule (one per Orchestrator): `check` may read and update what the
+    analyzer remembers (`σ`: aliases seen, a parsed configuration, kinds of variables …) -/
+structure SRule (σ G W : Type) where
+  init : σ
+  check : σ → G → σ × List W
+
+section
+variable {σ G W : Type}
+
+/-- the per-file part of a run: the analyzer state is threaded through the files in the order they are linted -/
+def SRule.loop (R : SRule σ G W) (s : σ) : List G → σ × List W
+  | [] => (s, [])
+  | f :: fs =>
+    let r := R.check s f
+    let rest := R.loop r.1 fs
+    (rest.1, r.2 ++ rest.2)
+
+/-- the obligation on every rule: what it reports for a file does not depend on what the analyzer remembered before
+    (it resets, or keys what it keeps by the file) -/
+def SRule.Forgetful (R : SRule σ G W) : Prop := ∀ s f, (R.check s f).2 = (R.check R.init f).2
+
+/-- the verdict on one file by a fresh analyzer -/
+def SRule.alone (R : SRule σ G W) (f : G) : List W := (R.check R.init f).2
+end
+
 end ThaiLintModel.C08
